@@ -1,13 +1,13 @@
 package props
 
 import (
-	"sync"
 	"crypto/x509"
 	"fmt"
 	"io"
 	"math/rand"
 	"net"
 	"reflect"
+	"sync"
 
 	tls "github.com/refraction-networking/utls"
 	"verifharness/peer"
